@@ -24,16 +24,72 @@ LEX_ASSUME = [
     "lexer fields are set/read by name through verifrt.Poke/Peek (reflection natively)",
 ]
 
+NQ_PREFIX = 12   # len(hparse.QueryPrefixes)
+NS_PREFIX = 20   # len(hparse.SchemaPrefixes)
+NQ_ALPHA = 32    # len(Alphabet(QueryNames, false))
+NS_ALPHA = 41
+
+
+def stream_cases(nprefix, nalpha, kq, kpq, kt, kpt, extra=None):
+    """prefix 0 (free streams) up to k tokens; every other prefix with kp symbolic tokens.
+    The largest free-stream length is split by its first token."""
+    def f(tier, seed):
+        k, kp = (kq, kpq) if tier == "quick" else (kt, kpt)
+        cs = []
+        for i in range(0, k):
+            cs.append(dict({"k": i, "prefix": 0}, **(extra or {})))
+        for first in range(nalpha + (1 if (extra or {}).get("invalid") else 0)):
+            cs.append(dict({"k": k, "prefix": 0, "first": first}, **(extra or {})))
+        for p in range(1, nprefix):
+            cs.append(dict({"k": kp, "prefix": p}, **(extra or {})))
+        return cs
+    return f
+
+
+PARSE_ASSUME = [
+    "the lexer is replaced by a stub that hands the parser a stream of symbolic tokens (kind and value drawn from the grammar's alphabet: every punctuator, the keywords, two ordinary names, string/block-string/int/float/comment tokens); its contract (Invalid <=> error, positions set) is what the lexer checks establish",
+    "each case is one symbolic run over all streams of that shape; branch feasibility on a single token selector is decided by exhaustive evaluation over its <= 64 values inside the engine, everything else by z3",
+    "natively (replay) the stream is rendered to text and lexed by the real lexer",
+    "lexer.Type.String/Name are evaluated once per possible kind instead of being forked inside",
+]
+
 CHECKS = {
     "C01": {
         "units": [
             {"pkg": "verifh/hlex", "fn": "StepTotal", "cases": lex_cases(5, 8), "panic_prop": "C01"},
+            {"pkg": "verifh/hparse", "fn": "QueryTotal", "cases": stream_cases(NQ_PREFIX, NQ_ALPHA, 3, 2, 5, 4, {"invalid": 1}), "panic_prop": "C01"},
+            {"pkg": "verifh/hparse", "fn": "SchemaTotal", "cases": stream_cases(NS_PREFIX, NS_ALPHA, 3, 2, 4, 3, {"invalid": 1}), "panic_prop": "C01"},
         ],
-        "covers": ["C01.error", "C01.eof", "C01.token"],
+        "covers": ["C01.error", "C01.eof", "C01.token", "C01.parsed", "C01.syntax-error"],
         "bounds": {"quick": "lexer: every byte string of length <= 5 after the cursor (all 256 byte values, valid UTF-8 or not), one ReadToken step; loops unwound n+3 times with unwinding assertions",
                    "thorough": "lexer: every byte string of length <= 8 after the cursor"},
         "outside": "inputs longer than the bound after the cursor; wall-clock and stack size on large inputs",
         "assumptions": LEX_ASSUME,
+    },
+    "C05": {
+        "units": [{"pkg": "verifh/hparse", "fn": "QueryRef", "cases": stream_cases(NQ_PREFIX, NQ_ALPHA, 4, 3, 6, 5), "panic_prop": "C05"}],
+        "covers": ["C05.accepted", "C05.rejected"],
+        "bounds": {"quick": "every stream of <= 4 tokens over the 32-symbol executable alphabet, and 3 arbitrary tokens after each of 11 concrete openings (variable definitions, arguments, directives, list/object values, fragments, nested selections)",
+                   "thorough": "<= 6 free tokens; 5 after each opening"},
+        "outside": "longer streams; that rendered text lexes back to the intended tokens is checked natively at replay only",
+        "assumptions": PARSE_ASSUME + ["reference recogniser hparse.RefQuery written from section 2 of the specification; validated natively against parser/query_test.yml at setup"],
+    },
+    "C06": {
+        "units": [{"pkg": "verifh/hparse", "fn": "SchemaRef", "cases": stream_cases(NS_PREFIX, NS_ALPHA, 3, 3, 5, 4), "panic_prop": "C06"}],
+        "covers": ["C06.accepted", "C06.rejected"],
+        "bounds": {"quick": "every stream of <= 3 tokens over the 41-symbol type-system alphabet, and 3 arbitrary tokens after each of 19 concrete openings",
+                   "thorough": "<= 5 free tokens; 4 after each opening"},
+        "outside": "longer streams",
+        "assumptions": PARSE_ASSUME + ["reference recogniser hparse.RefSchema written from section 3; validated natively against parser/schema_test.yml and the prelude at setup"],
+    },
+    "C16": {
+        "units": [{"pkg": "verifh/hparse", "fn": "QueryLimit", "cases": stream_cases(NQ_PREFIX, NQ_ALPHA, 3, 2, 5, 4), "panic_prop": "C16"},
+                  {"pkg": "verifh/hparse", "fn": "SchemaLimit", "cases": stream_cases(NS_PREFIX, NS_ALPHA, 3, 2, 4, 3), "panic_prop": "C16"}],
+        "covers": ["C16.both-parse", "C16.over-limit"],
+        "bounds": {"quick": "streams as for C05/C06 with <= 3 free tokens (2 after an opening), every limit 0..tokens+2, all four limited entry points reached through ParseQueryWithTokenLimit / ParseSchemaWithLimit",
+                   "thorough": "<= 5 / 4 free tokens"},
+        "outside": "wall time and memory on multi-megabyte inputs; 'work bounded by the limit' is decided as: the result does not depend on anything after the first limit+2 tokens",
+        "assumptions": PARSE_ASSUME,
     },
     "C03": {
         "units": [
